@@ -434,9 +434,14 @@ func (fr *Frame) mergeStates(conds []string, sts []*State) *State {
 	out := &State{h: map[string]string{}}
 	if sameEpoch {
 		out.epoch = sts[0].epoch
+		if len(sts[0].preds) > 0 {
+			// all predecessors are (clones of) lazily merged states of one epoch: keep merging lazily over them
+			out.preds, out.conds = sts, conds
+		}
 	} else {
 		g.nEpoch++
 		out.epoch = g.nEpoch
+		out.preds, out.conds = sts, conds
 	}
 	names := map[string]bool{}
 	for _, s := range sts {
